@@ -229,7 +229,7 @@ func cursorMethods(ms *types.MethodSet) bool {
 
 // lockState computes, for every instruction of fn, whether a Lock (or RLock) on the mutex at access path mpath is
 // held on all paths reaching it (forward must-analysis; a deferred Unlock keeps it held to the end).
-func (c *Ctx) lockHeldAt(fn *ssa.Function, mpath string) map[ssa.Instruction]bool {
+func (c *Ctx) lockHeldAt(fn *ssa.Function, mpath string, exclusive bool) map[ssa.Instruction]bool {
 	held := map[ssa.Instruction]bool{}
 	in := map[*ssa.BasicBlock]int{} // 0 unknown(top), 1 held, 2 not held
 	classify := func(ins ssa.Instruction) int {
@@ -245,7 +245,13 @@ func (c *Ctx) lockHeldAt(fn *ssa.Function, mpath string) map[ssa.Instruction]boo
 			return 0
 		}
 		switch f.Name() {
-		case "Lock", "RLock":
+		case "Lock":
+			return 1
+		case "RLock":
+			// a read lock admits other readers: it protects reads, never writes
+			if exclusive {
+				return 0
+			}
 			return 1
 		case "Unlock", "RUnlock":
 			return 2
@@ -605,9 +611,9 @@ func (c *Ctx) synchronised(a fieldAccess, heldCache map[string]map[ssa.Instructi
 			continue
 		}
 		mpath := rootPath + "." + f.Name()
-		k := fmt.Sprintf("%p|%s", a.fn, mpath)
+		k := fmt.Sprintf("%p|%s|%v", a.fn, mpath, a.write)
 		if heldCache[k] == nil {
-			heldCache[k] = c.lockHeldAt(a.fn, mpath)
+			heldCache[k] = c.lockHeldAt(a.fn, mpath, a.write)
 		}
 		if heldCache[k][a.ins] {
 			return true, "mutex " + f.Name() + " of the same object is held on every path"
